@@ -3,6 +3,8 @@ use crate::core::Property;
 pub mod c02;
 pub mod c03;
 pub mod c06;
+pub mod c07;
+pub mod c08;
 pub mod c10;
 pub mod c15;
 pub mod c17;
@@ -21,6 +23,8 @@ pub fn all() -> Vec<Box<dyn Property>> {
         Box::new(c04::P),
         Box::new(c05::P),
         Box::new(c06::P),
+        Box::new(c07::P),
+        Box::new(c08::P),
         Box::new(c10::P),
         Box::new(c15::P),
         Box::new(c17::P),
